@@ -16,6 +16,8 @@ def gen(r, algo=None, focus=None, tier="quick", offgrid=False):
     nticks = r.randint(10, 300) if r.random() < 0.9 else r.randint(1, 12)
     pools = 2 if algo == "priority-pool" else r.choice([1, 1, 2, 2, 3, 4])
     cpus = r.choice([1, 1, 2, 4, 8, 10, 16, 64])
+    if r.random() < 0.06:
+        cpus = r.choice([1.5, 2.5, 12.5, 20.5])      # nothing in the package requires whole CPUs per pool
     unit = F(20, tps)
     mode = r.random()
     if mode < 0.55:
@@ -205,7 +207,7 @@ def gen_preempt(r, tier="quick", offgrid=True):
     tps = r.choice([1, 1, 2, 3, 5, 10, 20, 50])
     unit = F(20, tps)
     pools = r.choice([1, 1, 2, 3])
-    cpus = r.choice([1, 2, 3, 4, 8])
+    cpus = r.choice([1, 2, 3, 4, 8, 2.5, 12.5])
     ram = r.choice([8, 20, 64, 100, 256])
     nticks = r.randint(40, 250)
     cfg = {"algo": "priority", "tps": tps, "duration": float(F(nticks, tps)), "pools": pools, "cpus": cpus, "ram": ram,
@@ -225,7 +227,7 @@ def gen_preempt(r, tier="quick", offgrid=True):
             par = [i - 1] if i and r.random() < 0.8 else []
             ops.append({"par": par, "segs": [seg]})
         return {"prio": prio, "at": at, "ops": ops}
-    nb = r.randint(pools * cpus, pools * cpus * 3)
+    nb = r.randint(int(pools * cpus), int(pools * cpus * 3))
     for k in range(nb):
         pipes.append(chain(r.choice(["BATCH_PIPELINE", "BATCH_PIPELINE", "INTERACTIVE"]), r.randint(0, 3), r.randint(2, 6), r.choice([2, 4, 8])))
     t = r.randint(2, 8)
